@@ -326,6 +326,11 @@ def key_descriptors(keys):
             # a key descriptor that names its key instead of carrying a certificate (schema-valid; contributes no certificate)
             out.append('<md:KeyDescriptor%s><ds:KeyInfo xmlns:ds="%s"><ds:KeyName>named-key</ds:KeyName></ds:KeyInfo></md:KeyDescriptor>' % (_attrs([('use', use)]), DS))
             continue
+        if idx == 'damaged':
+            # a certificate the tool cannot load (truncated DER): contributes no usable key
+            out.append('<md:KeyDescriptor%s><ds:KeyInfo xmlns:ds="%s"><ds:X509Data><ds:X509Certificate>%s</ds:X509Certificate></ds:X509Data></ds:KeyInfo></md:KeyDescriptor>'
+                       % (_attrs([('use', use)]), DS, world.cert_body(9)[:400]))
+            continue
         idxs = idx if isinstance(idx, (list, tuple)) else [idx]
         certs = ''.join('<ds:X509Data><ds:X509Certificate>%s</ds:X509Certificate></ds:X509Data>' % world.cert_body(i) for i in idxs)
         out.append('<md:KeyDescriptor%s><ds:KeyInfo xmlns:ds="%s">%s</ds:KeyInfo></md:KeyDescriptor>' % (_attrs([('use', use)]), DS, certs))
